@@ -365,7 +365,7 @@ class Harness:
 
     def run(self, lines):
         from concurrent.futures import ThreadPoolExecutor
-        with ThreadPoolExecutor(max_workers=8) as ex:
+        with ThreadPoolExecutor(max_workers=12) as ex:
             outs = list(ex.map(rig.guarded(self.one, list(self.squids.values())), lines))
         for s in self.squids.values():
             if not s.alive():
